@@ -226,31 +226,26 @@ Lemma sync_coll_settled : forall cfg now seed x a x' seed' r s,
   (a = ATok (Tok s) -> r = Delta (Tok s) []).
 Proof.
   intros cfg now seed x a x' seed' r s Hfix Hset H. unfold sync_coll in H.
+  assert (Hne_dummy : True) by exact I.
+  Ltac fin_settled Hfix Hset :=
+    split; [first [exact Hset | cbn; rewrite ?Hfix; exact Hset]
+           | split; [reflexivity
+           | split; [let Hr := fresh in intros ? ? Hr; inversion Hr; reflexivity
+           | split; [let Ha := fresh in intro Ha; try discriminate Ha; eexists; reflexivity
+                    | let Ha := fresh in intro Ha; try discriminate Ha; try reflexivity]]]].
   destruct a as [| | t].
   - rewrite (Hset now seed) in H.
-    destruct (tget (Tok s) (c_toks x)) as [[s0 m0] |]; inversion H; subst; clear H; cbn.
-    + repeat split; try (intros; congruence); try discriminate.
-      * intros t d Hr; inversion Hr; reflexivity.
-      * intros _; eexists; reflexivity.
-    + rewrite Hfix. repeat split; try (intros; congruence); try discriminate.
-      * intros t d Hr; inversion Hr; reflexivity.
-      * intros _; eexists; reflexivity.
-  - inversion H; subst; clear H. repeat split; try discriminate. exact Hset.
+    destruct (tget (Tok s) (c_toks x)) as [[s0 m0] |]; inversion H; subst; clear H; fin_settled Hfix Hset.
+  - inversion H; subst; clear H. fin_settled Hfix Hset.
   - rewrite (Hset now seed) in H.
     destruct (token_eqb t (Tok s)) eqn:Eq.
-    + apply token_eqb_eq in Eq; subst t. inversion H; subst; clear H. cbn.
-      repeat split; try discriminate.
-      * intros t d Hr; inversion Hr; reflexivity.
-      * intros _; reflexivity.
+    + apply token_eqb_eq in Eq; subst t. inversion H; subst; clear H. fin_settled Hfix Hset.
     + assert (Hne : ATok t <> ATok (Tok s)).
       { intro Hc; inversion Hc; subst t. rewrite token_eqb_refl in Eq; discriminate. }
       destruct (tget t (c_toks x)) as [[s0 m0] |].
-      * destruct (tget (Tok s) (c_toks x)) as [[s2 m2] |]; inversion H; subst; clear H; cbn.
-        -- repeat split; try discriminate; try contradiction.
-           intros t0 d Hr; inversion Hr; reflexivity.
-        -- rewrite Hfix. repeat split; try discriminate; try contradiction.
-           intros t0 d Hr; inversion Hr; reflexivity.
-      * inversion H; subst; clear H; cbn. repeat split; try discriminate; try contradiction.
+      * destruct (tget (Tok s) (c_toks x)) as [[s2 m2] |]; inversion H; subst; clear H;
+          fin_settled Hfix Hset; exfalso; apply Hne; assumption.
+      * inversion H; subst; clear H; fin_settled Hfix Hset; exfalso; apply Hne; assumption.
 Qed.
 
 (* token files: a file younger than max age survives sync; its mtime never decreases *)
@@ -406,19 +401,19 @@ Proof.
     split; [exact He |]. exists a, x', s', d; split; assumption.
   - cbn [step] in H. destruct (c_exists (getc st c)); [| discriminate H]. split; [reflexivity |].
     destruct (sync_coll cfg (st_now st) (st_seed st) (getc st c) ANone) as [[x' s'] r] eqn:E.
-    destruct r as [| t0 d]; inversion H; subst. exists ANone, x', s', d; split; reflexivity.
+    destruct r as [| t0 d]; inversion H; subst. exists ANone, x', s', d; split; [exact E | reflexivity].
 Qed.
 
 (* ------------------------------------------------------------------ C07_converge *)
 Lemma aget_apply_delta : forall (cur : view) d v h,
   aget h (apply_delta v (map (fun k => (k, aget k cur)) d)) = if nmem h d then aget h cur else aget h v.
 Proof.
-  intros cur d; induction d as [| k r IH]; intros v h; cbn; [reflexivity |].
-  unfold apply_delta in *. cbn [map fold_left fst snd]. rewrite IH.
+  intros cur d; induction d as [| k r IH]; intros v h; [reflexivity |].
+  unfold apply_delta in *. cbn [map fold_left fst snd]. rewrite IH. unfold nmem. cbn [existsb].
   destruct (N.eqb h k) eqn:E; cbn [orb].
-  - apply N.eqb_eq in E; subst k. destruct (nmem h r); [reflexivity |].
+  - apply N.eqb_eq in E; subst k. destruct (existsb (N.eqb h) r); [reflexivity |].
     destruct (aget h cur) as [e |]; [rewrite aget_ains, N.eqb_refl | rewrite aget_adel, N.eqb_refl]; reflexivity.
-  - destruct (nmem h r); [reflexivity |].
+  - destruct (existsb (N.eqb h) r); [reflexivity |].
     destruct (aget k cur) as [e |]; [rewrite aget_ains, E | rewrite aget_adel, E]; reflexivity.
 Qed.
 
@@ -479,7 +474,7 @@ Proof.
   assert (Hsync : forall c' a, settled_at (fst (let x := getc st c' in
        if c_exists x then let '(x', seed, r) := sync_coll cfg (st_now st) (st_seed st) x a in
                           (set_seed (setc st c' x') seed, RSync r) else (st, RNoColl))) c s).
-  { intros c' a. destruct (c_exists (getc st c')) eqn:Ee; [| split; assumption].
+  { intros c' a. cbn zeta. destruct (c_exists (getc st c')) eqn:Ee; [| split; assumption].
     destruct (sync_coll cfg (st_now st) (st_seed st) (getc st c') a) as [[x' s'] r] eqn:E; cbn.
     unfold settled_at. rewrite getc_set_seed, getc_setc. destruct (N.eqb c c') eqn:Ec.
     - apply N.eqb_eq in Ec; subst c'.
@@ -507,7 +502,7 @@ Proof.
   - cbn. unfold settled_at. rewrite getc_setc_other by congruence. split; assumption.
   - cbn. split; assumption.
   - apply (Hsync c' a).
-  - specialize (Hsync c' ANone). destruct (c_exists (getc st c')); [| exact Hsync].
+  - specialize (Hsync c' ANone). cbn zeta in Hsync. destruct (c_exists (getc st c')); [| exact Hsync].
     destruct (sync_coll cfg (st_now st) (st_seed st) (getc st c') ANone) as [[x' s'] r]; exact Hsync.
 Qed.
 
@@ -597,11 +592,11 @@ Definition no_reset (c : collid) (o : op) : Prop :=
 Lemma step_now_mono : forall cfg st o, st_now st <= st_now (fst (step cfg st o)).
 Proof.
   intros cfg st o. destruct o as [c h e | c h | c h c2 h2 | c l | c | c b | dt | c a | c]; cbn [step].
-  - destruct (c_exists (getc st c)); [| lia].
+  - destruct (c_exists (getc st c)); [| cbn; lia].
     destruct (put_coll cfg (st_now st) (st_seed st) (getc st c) h (EText e)); cbn; lia.
-  - destruct (c_exists (getc st c) && amem h (c_items (getc st c))); [| lia].
+  - destruct (c_exists (getc st c) && amem h (c_items (getc st c))); [| cbn; lia].
     destruct (del_coll cfg (st_now st) (st_seed st) (getc st c) h); cbn; lia.
-  - destruct (if c_exists (getc st c) && c_exists (getc st c2) then aget h (c_items (getc st c)) else None); [| lia].
+  - destruct (if c_exists (getc st c) && c_exists (getc st c2) then aget h (c_items (getc st c)) else None); [| cbn; lia].
     destruct (N.eqb c c2).
     + destruct (move_same_coll cfg (st_now st) (st_seed st) (getc st c) h h2 e); cbn; lia.
     + destruct (put_coll cfg (st_now st) (st_seed st) (getc st c2) h2 e) as [y' s1].
@@ -610,9 +605,9 @@ Proof.
   - destruct (c_exists (getc st c)); cbn; lia.
   - cbn; lia.
   - cbn; lia.
-  - destruct (c_exists (getc st c)); [| lia].
+  - destruct (c_exists (getc st c)); [| cbn; lia].
     destruct (sync_coll cfg (st_now st) (st_seed st) (getc st c) a) as [[x' s'] r]; cbn; lia.
-  - destruct (c_exists (getc st c)); [| lia].
+  - destruct (c_exists (getc st c)); [| cbn; lia].
     destruct (sync_coll cfg (st_now st) (st_seed st) (getc st c) ANone) as [[x' s'] r]; cbn; lia.
 Qed.
 
@@ -634,7 +629,7 @@ Proof.
   assert (Hsync : forall c' a, holds_token (fst (let x := getc st c' in
        if c_exists x then let '(x', seed, r) := sync_coll cfg (st_now st) (st_seed st) x a in
                           (set_seed (setc st c' x') seed, RSync r) else (st, RNoColl))) c t m).
-  { intros c' a. destruct (c_exists (getc st c')) eqn:Ee; [| exact Hsame].
+  { intros c' a. cbn zeta. destruct (c_exists (getc st c')) eqn:Ee; [| exact Hsame].
     destruct (sync_coll cfg (st_now st) (st_seed st) (getc st c') a) as [[x' s'] r] eqn:E; cbn.
     unfold holds_token. rewrite getc_set_seed, getc_setc. destruct (N.eqb c c') eqn:Ec; [| exact Hsame].
     apply N.eqb_eq in Ec; subst c'.
@@ -676,7 +671,7 @@ Proof.
   - cbn. unfold holds_token. rewrite getc_setc_other by congruence. exact Hsame.
   - cbn. exact Hsame.
   - apply (Hsync c' a).
-  - specialize (Hsync c' ANone). destruct (c_exists (getc st c')); [| exact Hsync].
+  - specialize (Hsync c' ANone). cbn zeta in Hsync. destruct (c_exists (getc st c')); [| exact Hsync].
     destruct (sync_coll cfg (st_now st) (st_seed st) (getc st c') ANone) as [[x' s'] r]; exact Hsync.
 Qed.
 
